@@ -256,7 +256,17 @@ def _diff(d1, d2):
 
 def gen_layout(r, i):
     share = (i % 5 == 0)
-    return {'single': True, 'zero_mode': bool(i % 2), 'units': {1: SM.unit_layout(r, share=share, small=(i % 7 != 0))}}
+    layout = {'single': True, 'zero_mode': bool(i % 2), 'units': {1: SM.unit_layout(r, share=share, small=(i % 7 != 0))}}
+    if i % 6 == 3:
+        # an application that builds all its tables from one `init` list (equal initial values, one caller-side list object)
+        start, n = r.choice([0, 1, 3]), r.choice([8, 16, 32])
+        layout['units'][1] = {'c': {'type': 'seq', 'start': start, 'values': [False] * n}, 'd': {'type': 'seq', 'start': start, 'values': [False] * n},
+                              'i': {'type': 'seq', 'start': start, 'values': [0] * n}, 'h': {'type': 'seq', 'start': start, 'values': [0] * n}, 'alias': {}}
+        layout['share_init_lists'] = True
+    if i % 6 == 4:
+        layout['via_defaults'] = True          # addressing mode configured through the process-wide Defaults.ZeroMode
+        layout['zero_mode'] = bool(i % 4 != 2)
+    return layout
 
 
 def run(run):
